@@ -316,6 +316,18 @@ func runShard(id, tier string, seed int64, shard, nshards int, cfg propCfg, work
 			a.mu.Unlock()
 			return
 		}
+		if strings.Contains(stderrS, "GUARD-EXIT") {
+			// the worker's resource guard reported the case itself and exited
+			a.mu.Lock()
+			a.counters["guard_exits"]++
+			a.mu.Unlock()
+			if only >= 0 || ci < 0 {
+				return
+			}
+			fromStream = cs
+			from = ci + 1
+			continue
+		}
 		kind, msg, site := classifyCrash(stderrS)
 		if kind == "" {
 			a.mu.Lock()
